@@ -308,6 +308,23 @@ func checkCase(c Case) error {
 			if sp.called != 0 {
 				return fmt.Errorf("value was decoded although the stored mask %#x lacks required attributes %#x", c.Stored, c.Attrs)
 			}
+			// the typed getters of the same API read the same file under the predefined definition: the same error
+			for _, tg := range []struct {
+				v   efivar.Efivar
+				get func(*efivarfs.Efivarfs) error
+			}{
+				{efivar.PK, func(e *efivarfs.Efivarfs) error { _, err := e.GetPK(); return err }},
+				{efivar.KEK, func(e *efivarfs.Efivarfs) error { _, err := e.GetKEK(); return err }},
+				{efivar.Db, func(e *efivarfs.Efivarfs) error { _, err := e.Getdb(); return err }},
+				{efivar.Dbx, func(e *efivarfs.Efivarfs) error { _, err := e.Getdbx(); return err }},
+			} {
+				if tg.v.Name == name && adapt.Ref(*tg.v.GUID) == g && c.Dir == "/sys/firmware/efi/efivars" && c.Stored&uint32(tg.v.Attributes) != uint32(tg.v.Attributes) {
+					hx.Class("read/typed_getter_with_insufficient_stored_mask")
+					if gerr := tg.get(fs.Open()); !errors.Is(gerr, efivarfs.ErrIncorrectAttributes) {
+						return fmt.Errorf("typed getter of %s: stored mask %#x lacks attributes of the definition %#x: want ErrIncorrectAttributes, got %v", name, c.Stored, uint32(tg.v.Attributes), gerr)
+					}
+				}
+			}
 		default:
 			hx.Class("read/ok")
 			if err != nil {
